@@ -104,7 +104,7 @@ def d2(ctx, F):
     ctx.check(okm, "C02.D2.rest-intact", "router:message-rebuilt", "the reply's message bytes are the incoming ones", rs.span)
     # malformed / unknown tags: Err without panic
     sites = panics.analyse(ctx, [rs], "C02.D2.bad-tag-no-panic", include_alloc=False)
-    ctx.floor("C02.D2.bad-tag-no-panic.sites", len(sites), 3)
+    # (no floor on the number of panic-capable sites: a version without unwraps has none; the body itself is resolved fail-closed)
     errs = [1 for i, j, pl, rv, s in K.aggregates(rs, "core::result::Result") if rv["variant"] == "Err" and pl["l"] == 0]
     ctx.floor("C02.D2.bad-tag-errors", len(errs) + len([c for c in rs.calls() if strip_generics(c.callee) == "core::ops::try_trait::FromResidual::from_residual"]), 4)
 
